@@ -9,6 +9,10 @@ The model mirrors the code with the proposed repairs applied:
   C04-6 import mode 1 keys parts by (track, channel),    C04-7 a part without notes has no track,
   C04-8 whole beat counts are compared exactly,          C04-9 a fractional beat count halves the beat.
 
+The exporter is split into named pieces (`exportRecs`, `exportTempos`, `exportMetas`, `exportTrack` ...)
+and so is the importer (`readTracks`, `notesByTrCh`, `cellNotes`): the theorems of Props/C04Export.lean
+are statements about these pieces as they are composed by `saveScoreMidi` / `loadScoreMidi`.
+
 Python dicts are association lists in insertion order (`dictSet` overwrites in place,
 `dictAppend` appends to the list stored under a key).  Nothing outside Lean core.
 -/
@@ -160,41 +164,101 @@ def trackNotes (recs : List NoteOut) (tcOf : Key → Option (Nat × Nat)) (tr ve
 def trackEvents (tempos metas : List (Int × Msg)) (notes : List NoteRec) : TrackEvents :=
   { noteEvents notes with tempos := tempos, metas := metas }
 
+/-- `ppq`: `get_ppq` over all parts followed by the `minimum_ppq` loop -/
+def exportPpq (parts : List PartIn) (minPpq : Nat) : Nat := ppq (parts.flatMap fun x => divisions x.base) minPpq
+
+/-- the note keys `(part group, part, voice)` in the order they enter `event_keys` (part after part,
+    note after note) -/
+def noteKeys (parts : List PartIn) : List Key :=
+  firstSeen ((parts.zipIdx).flatMap fun (x, i) => x.notes.map fun n => (x.group, i, n.2.2.2))
+
+/-- every sounding note of every part with its written ticks, part after part -/
+def exportRecs (tkOf : PartIn → Nat → Int) (parts : List PartIn) : List NoteOut :=
+  (parts.zipIdx).flatMap fun (x, i) =>
+    x.notes.map fun n => ⟨(x.group, i, n.2.2.2), tkOf x n.1, tkOf x (n.1 + n.2.1), n.2.2.1⟩
+
+/-- the `tempos` dict, shared by all parts; the default tempo as soon as a part leaves it empty -/
+def exportTempos (tkOf : PartIn → Nat → Int) (parts : List PartIn) : List (Int × Nat) :=
+  parts.foldl (fun d x =>
+    let d' := x.tempos.foldl (fun d tp => dictSet d (tkOf x tp.1) tp.2) d
+    if d'.isEmpty then [(0, 500000)] else d') []
+
+/-- `meta_events[part]` flattened, per part index; `none`: NaN time signature -/
+def exportMetas (a : Anacrusis) (tkOf : PartIn → Nat → Int) (parts : List PartIn) :
+    Option (List (Nat × List (Int × Msg))) :=
+  (parts.zipIdx).mapM fun (x, i) => (partMetas a x (tkOf x)).map fun d => (i, flattenDict d)
+
+/-- `part_track_map[part]`: the tracks that hold notes of part `i` -/
+def tracksOfPart (ktc : List (Key × (Nat × Nat))) (i : Nat) : List Nat :=
+  ktc.filterMap fun e => if e.1.2.1 = i then some e.2.1 else none
+
+/-- the time/key signature events of track `tr`: `events[tr][t] = me + events[tr][t]` part after part,
+    so the last part's events come first -/
+def trackMetas (metas : List (Nat × List (Int × Msg))) (ktc : List (Key × (Nat × Nat))) (tr : Nat) : List (Int × Msg) :=
+  (metas.reverse).flatMap fun e => if (tracksOfPart ktc e.1).contains tr then e.2 else []
+
+/-- the absolute-tick content of track `tr` -/
+def exportTrack (tempos : List (Int × Nat)) (metas : List (Nat × List (Int × Msg))) (recs : List NoteOut)
+    (ktc : List (Key × (Nat × Nat))) (vel tr : Nat) : List (Int × Msg) :=
+  trackOrder (trackEvents
+    (if tr = 0 then tempos.map (fun e => (e.1, Msg.tempo e.2)) else [])
+    (trackMetas metas ktc tr)
+    (trackNotes recs (fun k => lookup k ktc) tr vel))
+
 /-- `save_score_midi(parts, part_voice_assign_mode=mode, velocity=vel, anacrusis_behavior=a,
     minimum_ppq=minPpq)`; `none`: the code raises -/
 def saveScoreMidi (mode : Nat) (a : Anacrusis) (minPpq vel : Nat) (parts : List PartIn) : Option Exported := do
-  let p := ppq (parts.flatMap fun x => divisions x.base) minPpq
+  let p := exportPpq parts minPpq
   let o ← origin a (parts.map (·.base))
-  let tkOf (x : PartIn) (t : Nat) : Int := tick p x.base o t
-  -- tempo dict, shared by all parts; default tempo as soon as a part leaves it empty
-  let tempos : List (Int × Nat) := parts.foldl (fun d x =>
-    let d' := x.tempos.foldl (fun d tp => dictSet d (tkOf x tp.1) tp.2) d
-    if d'.isEmpty then [(0, 500000)] else d') []
-  -- meta events per part
-  let metas ← (parts.zipIdx).mapM fun (x, i) => (partMetas a x (tkOf x)).map fun d => (i, flattenDict d)
-  -- notes
-  let recs : List NoteOut := (parts.zipIdx).flatMap fun (x, i) =>
-    x.notes.map fun n => ⟨(x.group, i, n.2.2.2), tkOf x n.1, tkOf x (n.1 + n.2.1), n.2.2.1⟩
-  let keys := firstSeen (recs.map (·.key))
+  let tempos := exportTempos (fun x t => tick p x.base o t) parts
+  let metas ← exportMetas a (fun x t => tick p x.base o t) parts
+  let recs := exportRecs (fun x t => tick p x.base o t) parts
+  let keys := noteKeys parts
   let tcs ← mapToTrackChannel mode keys
-  let tcOf (k : Key) : Option (Nat × Nat) := lookup k (keys.zip tcs)
   let nTracks ← (maxList (tcs.map (·.1))).map (· + 1)
-  let tracksOfPart (i : Nat) : List Nat := (keys.zip tcs).filterMap fun e => if e.1.2.1 = i then some e.2.1 else none
-  let tracks := (List.range nTracks).map fun tr =>
-    trackOrder (trackEvents
-      (if tr = 0 then tempos.map (fun e => (e.1, Msg.tempo e.2)) else [])
-      -- `events[tr][t] = me + events[tr][t]` part after part: the last part's events come first
-      ((metas.reverse).flatMap (fun e => if (tracksOfPart e.1).contains tr then e.2 else []))
-      (trackNotes recs tcOf tr vel))
+  let tracks := (List.range nTracks).map (exportTrack tempos metas recs (keys.zip tcs) vel)
   -- a negative delta time cannot be written
   if tracks.any (fun t => match t with | [] => false | e :: _ => e.1 < 0) then none
   else pure ⟨p, tracks⟩
+
+-- ------------------------------------------------------------------ the exporter from the note objects
+
+/-- what `save_score_midi` reads from one part before `Part.notes_tied` / `duration_tied` are applied:
+    the note objects (`iter_all(Note, include_subclasses=True)`) with their tie links, and their voices -/
+structure PartSrc where
+  group : Nat
+  base : TimeBase
+  tempos : List (Nat × Nat)
+  ks : List (Nat × String)
+  measures : List (Nat × Nat)
+  notes : List ScoreNote
+  /-- `note.voice`, aligned with `notes` -/
+  voices : List Voice
+  deriving Repr
+
+/-- `Part.notes_tied` with `duration_tied`, `midi_pitch` and `voice` of the chain head -/
+def notesTiedV (notes : List ScoreNote) (voices : List Voice) : List (Nat × Nat × Nat × Voice) :=
+  (List.range notes.length).filterMap fun i =>
+    match notes[i]? with
+    | none => none
+    | some n =>
+      if n.tiePrev then none else some (n.start, durationTied notes notes.length i, n.pitch, (voices[i]?).join)
+
+def PartSrc.toPartIn (x : PartSrc) : PartIn :=
+  ⟨x.group, x.base, x.tempos, x.ks, x.measures, notesTiedV x.notes x.voices⟩
+
+/-- `save_score_midi` as a function of the note objects -/
+def saveScore (mode : Nat) (a : Anacrusis) (minPpq vel : Nat) (srcs : List PartSrc) : Option Exported :=
+  saveScoreMidi mode a minPpq vel (srcs.map PartSrc.toPartIn)
 
 -- ------------------------------------------------------------------ the importer
 
 structure PartOut where
   group : Option Nat
-  /-- (onset, pitch, duration, voice) in the order `create_part` receives them -/
+  /-- `create_part`: `part.set_quarter_duration(0, ticks)` with `ticks = mid.ticks_per_beat` -/
+  divs : Nat
+  /-- (onset, pitch, duration, voice) in the order `create_part` receives them; `create_part` adds
+      every note from `onset` to `onset + duration` (divisions = ticks) -/
   notes : List (Int × Nat × Int × Int)
   timeSigs : List (Int × Int × Int)
   keySigs : List (Int × String)
@@ -217,43 +281,82 @@ def ltTS (a b : Int × Int × Int) : Bool :=
 
 def ltKS (a b : Int × String) : Bool := a.1 < b.1 || (a.1 == b.1 && a.2 < b.2)
 
-/-- `load_score_midi(file, part_voice_assign_mode=mode)` up to `create_part`: per part the notes,
-    voices, time and key signatures handed to `create_part`; the tempi added to the first part.
-    `tracks`: delta-time messages.  `none`: the code raises (no notes at all). -/
-def loadScoreMidi (mode : Nat) (tracks : List (List (Int × Msg))) : Option Imported := do
-  let perTrack := (tracks.zipIdx).map fun (msgs, i) =>
+/-- what the reader collects from one track: index, notes in the order they end, time signatures,
+    key signatures, tempi (absolute ticks) -/
+abbrev TrackRead := Nat × List NoteRec × List (Int × Int × Int) × List (Int × String) × List (Int × Nat)
+
+def readTracks (tracks : List (List (Int × Msg))) : List TrackRead :=
+  (tracks.zipIdx).map fun (msgs, i) =>
     let abs := absoluteFrom 0 msgs
     (i, pairAbs abs, timeSigsOf abs, keySigsOf abs, temposOf abs)
+
+/-- `notes_by_track_ch`: per track with notes, per channel in order of its first completed note -/
+def notesByTrCh (withNotes : List TrackRead) : List ((Nat × Nat) × List NoteRec) :=
+  withNotes.flatMap fun e => (channelsOf e.2.1).map fun ch => ((e.1, ch), e.2.1.filter (fun n => n.ch = ch))
+
+/-- the notes handed to `create_part` for the (track, channel) cells of one part:
+    (onset, pitch, duration, voice) -/
+def cellNotes (byTrCh : List ((Nat × Nat) × List NoteRec)) (cells : List ((Nat × Nat) × Cell)) :
+    List (Int × Nat × Int × Int) :=
+  cells.flatMap fun e =>
+    ((byTrCh.filter (fun x => x.1 = e.1)).flatMap (·.2)).map fun n =>
+      (n.on, n.pitch, n.off - n.on, (match e.2.2.2 with | some v => (v : Int) | none => 0))
+
+/-- where `create_part` puts a note: start and end in divisions of the created part (one division
+    per tick, `divs` divisions per quarter) -/
+def placeNote (n : Int × Nat × Int × Int) : Int × Int := (n.1, n.1 + n.2.2.1)
+
+/-- the time / key signature tables after the "sanitize" step: signatures of the tracks without notes
+    (global), and per track with notes -/
+structure SigTables where
+  globalTS : List (Int × Int × Int)
+  globalKS : List (Int × String)
+  trackTS : List (Nat × List (Int × Int × Int))
+  trackKS : List (Nat × List (Int × String))
+  deriving Repr
+
+def sigTables (perTrack : List TrackRead) : SigTables :=
   let withNotes := perTrack.filter fun e => !e.2.1.isEmpty
   let without := perTrack.filter fun e => e.2.1.isEmpty
-  let byTrCh : List ((Nat × Nat) × List NoteRec) := withNotes.flatMap fun e =>
-    (channelsOf e.2.1).map fun ch => ((e.1, ch), e.2.1.filter (fun n => n.ch = ch))
-  if byTrCh.isEmpty then none
-  let trch := sortedTC (byTrCh.map (·.1))
-  let gpv := assignGroupPartVoice mode trch
   let globalTS0 := without.flatMap fun e => e.2.2.1
-  let globalKS := without.flatMap fun e => e.2.2.2.1
   let counts := withNotes.map fun e => e.2.2.1.length
   let sanitize := globalTS0.isEmpty && counts.any (· = 0) && counts.any (· ≠ 0)
-  let globalTS := if sanitize then withNotes.flatMap (fun e => e.2.2.1) else globalTS0
-  let trackTS : List (Nat × List (Int × Int × Int)) := if sanitize then [] else withNotes.map fun e => (e.1, e.2.2.1)
-  let trackKS : List (Nat × List (Int × String)) := withNotes.map fun e => (e.1, e.2.2.2.1)
-  let partIds := firstSeen (gpv.map (·.2.1))
-  let parts ← partIds.mapM fun pid? =>
-    match pid? with
-    | none => none   -- `part_nr + 1` on None
-    | some pid =>
-      let cells := (trch.zip gpv).filter fun e => e.2.2.1 = some pid
-      let notes := cells.flatMap fun e =>
-        ((byTrCh.filter (fun x => x.1 = e.1)).flatMap (·.2)).map fun n =>
-          (n.on, n.pitch, n.off - n.on, (match e.2.2.2 with | some v => (v : Int) | none => 0))
-      let fromTracks {β : Type} (tbl : List (Nat × List β)) : List β :=
-        tbl.flatMap fun e => if (trackToParts trch gpv e.1).contains (some pid) then e.2 else []
-      let group := (cells.getLast?).bind (·.2.1)
-      -- `create_part`: "No time signatures found, assuming 4/4"
-      let tss := sortedSet ltTS (fromTracks trackTS ++ globalTS)
-      some (pid, (⟨group, notes, if tss.isEmpty then [(0, 4, 4)] else tss,
-                   sortedSet ltKS (fromTracks trackKS ++ globalKS)⟩ : PartOut))
-  pure ⟨parts, perTrack.flatMap fun e => e.2.2.2.2⟩
+  { globalTS := if sanitize then withNotes.flatMap (fun e => e.2.2.1) else globalTS0,
+    globalKS := without.flatMap fun e => e.2.2.2.1,
+    trackTS := if sanitize then [] else withNotes.map fun e => (e.1, e.2.2.1),
+    trackKS := withNotes.map fun e => (e.1, e.2.2.2.1) }
+
+/-- the (track, channel) cells of part `pid?` -/
+def cellsOf (trch : List (Nat × Nat)) (gpv : List Cell) (pid? : Option Nat) : List ((Nat × Nat) × Cell) :=
+  (trch.zip gpv).filter fun e => e.2.2.1 = pid?
+
+/-- what is handed to `create_part` for one part number; `none`: `part_nr + 1` on None -/
+def importPart (ticks : Nat) (byTrCh : List ((Nat × Nat) × List NoteRec)) (trch : List (Nat × Nat))
+    (gpv : List Cell) (sig : SigTables) (pid? : Option Nat) : Option (Nat × PartOut) :=
+  match pid? with
+  | none => none
+  | some pid =>
+    let cells := cellsOf trch gpv (some pid)
+    let fromTracks {β : Type} (tbl : List (Nat × List β)) : List β :=
+      tbl.flatMap fun e => if (trackToParts trch gpv e.1).contains (some pid) then e.2 else []
+    let group := (cells.getLast?).bind (·.2.1)
+    -- `create_part`: "No time signatures found, assuming 4/4"
+    let tss := sortedSet ltTS (fromTracks sig.trackTS ++ sig.globalTS)
+    some (pid, (⟨group, ticks, cellNotes byTrCh cells, if tss.isEmpty then [(0, 4, 4)] else tss,
+                 sortedSet ltKS (fromTracks sig.trackKS ++ sig.globalKS)⟩ : PartOut))
+
+/-- `load_score_midi(file, part_voice_assign_mode=mode)` up to `create_part`: per part the notes,
+    voices, time and key signatures handed to `create_part` and the quarter duration it sets; the
+    tempi added to the first part.  `ticks`: `mid.ticks_per_beat`; `tracks`: delta-time messages.
+    `none`: the code raises (no notes at all). -/
+def loadScoreMidi (mode ticks : Nat) (tracks : List (List (Int × Msg))) : Option Imported :=
+  let perTrack := readTracks tracks
+  let byTrCh := notesByTrCh (perTrack.filter fun e => !e.2.1.isEmpty)
+  if byTrCh.isEmpty then none
+  else
+    let trch := sortedTC (byTrCh.map (·.1))
+    let gpv := assignGroupPartVoice mode trch
+    ((firstSeen (gpv.map (·.2.1))).mapM (importPart ticks byTrCh trch gpv (sigTables perTrack))).map fun parts =>
+      ⟨parts, perTrack.flatMap fun e => e.2.2.2.2⟩
 
 end Model.ScoreMidi
